@@ -18,7 +18,9 @@ class BrentsRootFinder:
         self.fa = f_start
         self.fb = f_end
 
-        assert self.fa * self.fb < 0, "Function root needs to be between a and b"
+        # an end point may be a root itself (e.g. the squared norm met the jump
+        # threshold exactly at a time-step boundary)
+        assert self.fa * self.fb <= 0, "Function root needs to be between a and b"
 
         # b has to be the better guess
         if abs(self.fa) < abs(self.fb):
